@@ -1,5 +1,6 @@
 import errno
 import io
+import os
 import sys
 from abc import ABC, abstractmethod
 from enum import Enum
@@ -51,6 +52,23 @@ def raise_open_files_limit(n):
     soft, hard = resource.getrlimit(resource.RLIMIT_NOFILE)
     soft = min(soft + n, hard)
     resource.setrlimit(resource.RLIMIT_NOFILE, (soft, hard))
+
+
+def detect_format_from_name(path) -> Optional[str]:
+    """
+    Return "fasta" or "fastq" if the file name (ignoring a compression extension)
+    has one of the known extensions, and None otherwise.
+    """
+    name = os.fspath(path).lower()
+    for ext in (".gz", ".xz", ".bz2", ".zst"):
+        if name.endswith(ext):
+            name = name[: -len(ext)]
+            break
+    if name.endswith((".fasta", ".fa", ".fna")):
+        return "fasta"
+    if name.endswith((".fastq", ".fq")):
+        return "fastq"
+    return None
 
 
 class FileOpener:
@@ -244,6 +262,12 @@ class OutputFiles:
             paths = ("-",)
         for path in paths:
             assert path is not None
+        if "fileformat" not in kwargs:
+            # The writer cannot detect the format itself when it writes to a compressed
+            # file or to a memory buffer (when running on multiple cores)
+            fileformat = detect_format_from_name(paths[0])
+            if fileformat is not None:
+                kwargs["fileformat"] = fileformat
         binary_files = []
         for path in paths:
             binary_file = self._file_opener.xopen(path, "wb")
